@@ -1,15 +1,19 @@
 /-
   C05 — Substring search is exact: precisely the members that contain the pattern.
 
-  Proved: the part of `locateSubstr` that turns the sorted list of occurrence IDs
-  into the answer — `IteratorDictIDDuplicates` — yields each distinct ID once and
-  never reads beyond the sentinel cell. The FM-index backward search / LF walk and
-  the XBW navigation are compared with `Spec.substrIds` by the correspondence
-  stream (partial: `substring_search_partial`).
+  Proved: for FMINDEX built with BWT sampling the whole of `locateSubstr` — backward search
+  (`backward_search_exact`), the walk of every row of the block to a sampled row or to the separator in
+  front of the member (`FM.walk_member`), sorting, and the duplicate-skipping iterator
+  (`duplicates_iterator_exact`) — yields exactly `Spec.substrIds S p`
+  (`fmindex_substring_search_exact`), for every valid `S`, every suffix array of its text and every
+  sampling step > 0.  Suffix sorting itself and the wavelet tree under the BWT are not modelled (the
+  exported BWT / occ / samples of every run are compared with the model's build by the `fm-layer`
+  stream).  The XBW navigation is compared with `Spec.substrIds` by the correspondence stream only
+  (partial: `SubstringSearchStatement` for XBW).
 -/
 import CSD.Lemmas.Dups
 import CSD.Spec
-import CSD.Lemmas.FM11
+import CSD.Lemmas.FM16
 import CSD.Generated.Bodies
 import CSD.Model.SourceText
 
@@ -47,6 +51,26 @@ theorem backward_search_exact {T : List Nat} {L : List FM.Row} {ix : FM.Index} (
 /-- The number of rows in that block is the number of occurrences of the pattern in the text. -/
 theorem block_size_is_occurrence_count {T : List Nat} {L : List FM.Row} (hSA : FM.IsSA T L) (P : List Nat) :
     FM.occs L P = FM.occurrences P T := FM.occs_eq_occurrences hSA P
+
+/-- `StringDictionaryFMINDEX::locateSubstr` is exact: for every valid `S`, every suffix array `L` of its
+text, every index built from it with a BWT sampling step `> 0` (`FM.DictOK`, `FM.BuiltS`) and every
+non-empty pattern over `0x02 .. 0xFE`, the IDs the iterator yields are exactly the IDs of the members
+that contain the pattern — each once, ascending — however many times it occurs in a member; every row of
+the block is resolved by the LF walk to the member it lies in, through a sampled row or through the
+separator in front of the member; no structure is read out of bounds and the walk terminates. -/
+theorem fmindex_substring_search_exact {S : List Str} {L : List FM.Row} {d : FM.Dict} (hv : validDict S = true)
+    (hd : FM.DictOK S L d) (hS : FM.BuiltS (FM.mkText S) L d.ix) (p : Str) (hp : p.all validByte = true)
+    (hne : p ≠ []) : d.locateSubstr p = some (Spec.substrIds S p) :=
+  FM.locateSubstr_spec hv hd hS p hp hne
+
+/-- The sorted-and-deduplicated list of the model is what the duplicate-skipping iterator yields. -/
+theorem fmindex_dedup_is_the_iterator (l : List Nat) : FM.dedupAdj l = CSD.Dups.dedupAdj l := FM.dedupAdj_eq_dups l
+
+/-- The hypotheses hold for the model's own build, for every `S` and every step `> 0`. -/
+theorem fmindex_substring_hypotheses_hold (S : List Str) (step : Nat) (h : 0 < step) :
+    FM.DictOK S (FM.sortRows (FM.mkText S)) (FM.buildDict S step) ∧
+    FM.BuiltS (FM.mkText S) (FM.sortRows (FM.mkText S)) (FM.buildDict S step).ix :=
+  ⟨FM.dictOK_buildDict S step, FM.builtS_buildDict S step h⟩
 
 /-- Both hypotheses hold for what the model builds from any text. -/
 theorem backward_search_hypotheses_hold (T : List Nat) (step : Nat) :
